@@ -62,8 +62,9 @@ SeqViolated(r) ==
 (* ------------------------------- C14 ---------------------------------- *)
 ConvViolated(r) ==
   IF ~r.hasR THEN {"NoObject"}
-  ELSE IF RebuildOK(SOf(r)[r.key], DOf(r), r.key, r.v, r.r) THEN {} ELSE {"Rebuild"}
-NodeViolated(r) == IF NotOnce(DOf(r), r.key, BOf(r)[r.key], r.v, r.counts) = {} THEN {} ELSE {"Once"}
+  ELSE IF RebuildOK(TypeOfKey(Entries[r.ei].schema, r.key), DOf(r), r.key, r.v, r.r) THEN {} ELSE {"Rebuild"}
+NodeViolated(r) ==
+  IF NotOnce(SOf(r), TypeOfKey(Entries[r.ei].schema, r.key), DOf(r), r.key, BOf(r)[r.key], r.v, r.counts) = {} THEN {} ELSE {"Once"}
 
 Violated(r) == CASE r.kind = "seq" -> SeqViolated(r) [] r.kind = "conv" -> ConvViolated(r) [] r.kind = "node" -> NodeViolated(r)
 
